@@ -210,6 +210,7 @@ type Conn struct {
 
 	connectionClosedByUser bool
 	closeLock              sync.Mutex
+	closeNotifySent        atomic.Bool
 	closed                 *closer.Closer
 
 	readDeadline  *deadline.Deadline
@@ -2274,6 +2275,11 @@ func (c *Conn) recvHandshake() <-chan dtlshandshake.RecvHandshakeState {
 }
 
 func (c *Conn) notify(ctx context.Context, level alert.Level, desc alert.Description) error {
+	if desc == alert.CloseNotify && !c.closeNotifySent.CompareAndSwap(false, true) {
+		// close_notify is sent at most once: the reply to the peer's close_notify
+		// and the application's Close may race for it.
+		return nil
+	}
 	common := dtlsstate.CommonState(c.state)
 	if level == alert.Fatal && len(common.SessionID) > 0 { //nolint:nestif
 		if common.LocalVersion == protocol.Version1_2 {
